@@ -129,12 +129,33 @@ def take(root, cmemo_of=None, collect=False):
             return (REF, i)
         if c == 2:
             conts.add(id(v))
-            return ('list', id(v), tuple([enc(x) for x in v]))
+            out = []
+            for x in v:
+                if TRget(type(x)) == 1:          # (the common case inline: a list of descriptors / statements)
+                    i = id(x)
+                    if i not in objs:
+                        visit(x, i)
+                    out.append((REF, i))
+                else:
+                    out.append(enc(x))
+            return ('list', id(v), tuple(out))
         if c == 3:
             if id(v) == skip:
                 return ('memo-dict', id(v))
             conts.add(id(v))
-            return ('dict', id(v), tuple([(enc(k), enc(x)) for k, x in v.items()]))
+            out = []
+            for k, x in v.items():
+                tk = type(k)
+                if tk is not int and tk is not str:
+                    k = enc(k)
+                if TRget(type(x)) == 1:          # (the common case inline: id -> descriptor)
+                    i = id(x)
+                    if i not in objs:
+                        visit(x, i)
+                    out.append((k, (REF, i)))
+                else:
+                    out.append((k, enc(x)))
+            return ('dict', id(v), tuple(out))
         if c == 4:
             return (t, v)
         if c == 5:
@@ -355,12 +376,16 @@ def _short(v):
 
 # ---------------------------------------------------------------------------------------------
 # hooks (installed once per process; they report to _CURRENT[0])
-def _hook_setattr(cls):
-    cur = cls.__dict__.get('__setattr__')
-    if cur is None or not getattr(cur, '_c13_heap', False):
-        orig = cls.__setattr__
-
-        def __setattr__(self, name, value, _orig=orig):
+def _hook_attr(cls, nm):
+    """wrap cls.__setattr__ / cls.__delattr__ (nm); idempotent: a wrapped method is left as it is"""
+    cur = cls.__dict__.get(nm)
+    if cur is not None and getattr(cur, '_c13_heap', False):
+        return
+    orig = getattr(cls, nm)
+    if getattr(orig, '_c13_heap', False):
+        return                          # inherited from a base class that carries the hook already
+    if nm == '__setattr__':
+        def hook(self, name, value, _orig=orig):
             a = _CURRENT[0]
             if a is not None:
                 a.nset[a.pi] += 1
@@ -368,14 +393,8 @@ def _hook_setattr(cls):
                 if ent is not None and ent[0]() is self:
                     a.on_write(self, name, value, ent)
             _orig(self, name, value)
-        __setattr__._c13_heap = True
-        __setattr__._c13_orig = orig
-        cls.__setattr__ = __setattr__
-    cur = cls.__dict__.get('__delattr__')
-    if cur is None or not getattr(cur, '_c13_heap', False):
-        orig_d = cls.__delattr__
-
-        def __delattr__(self, name, _orig=orig_d):
+    else:
+        def hook(self, name, _orig=orig):
             a = _CURRENT[0]
             if a is not None:
                 a.nset[a.pi] += 1
@@ -383,9 +402,10 @@ def _hook_setattr(cls):
                 if ent is not None and ent[0]() is self:
                     a.on_write(self, name, _MISSING, ent)
             _orig(self, name)
-        __delattr__._c13_heap = True
-        __delattr__._c13_orig = orig_d
-        cls.__delattr__ = __delattr__
+    hook.__name__ = nm
+    hook._c13_heap = True
+    hook._c13_orig = orig
+    setattr(cls, nm, hook)
 
 
 def _all_subclasses(cls):
@@ -420,16 +440,16 @@ def install_hooks():
     bases, _ = _classes()
     hooked = []
     for b in bases:
-        _hook_setattr(b)
+        _hook_attr(b, '__setattr__')
+        _hook_attr(b, '__delattr__')
         hooked.append(b.__name__)
         for s in _all_subclasses(b):
             # a subclass that defines its own __setattr__ / __delattr__ would bypass the hook of the base class
             for nm in ('__setattr__', '__delattr__'):
                 f = s.__dict__.get(nm)
                 if f is not None and not getattr(f, '_c13_heap', False):
-                    _hook_setattr(s)
-                    hooked.append(s.__name__)
-                    break
+                    _hook_attr(s, nm)
+                    hooked.append('%s.%s' % (s.__name__, nm))
     _hook_init(coder.CoderState, 'on_coder_state')
     _hook_init(templatedata.TemplateData, 'on_template_data')
     return hooked
@@ -462,6 +482,7 @@ class HeapAudit(object):
         self.reg = {}            # id(object) -> [weakref, set of owners]
         self.tg = {}             # table group key -> _Entry
         self.ct = {}             # (coder name, compiled key) -> _Entry
+        self.cont = {}           # id(list / dict reachable from a cache entry) -> owner
         self.phase = ('run', None)
         self.pi = 2
         self.nset = [0, 0, 0]    # setattr / delattr calls on objects of the hooked classes, by phase
@@ -524,6 +545,10 @@ class HeapAudit(object):
                 e[1].discard(ent.owner)
                 if not e[1]:
                     del reg[i]
+        cont = self.cont
+        for i in ent.conts or ():
+            if cont.get(i) == ent.owner:
+                del cont[i]
 
     def _insert(self, store, key, obj, owner, seen, cmemo_of=None):
         t0 = time.perf_counter()
@@ -537,6 +562,8 @@ class HeapAudit(object):
         ent.owner = owner
         ent.ids = self._register(owner, s.found)
         ent.conts = s.conts
+        for i in s.conts:
+            self.cont.setdefault(i, owner)
         s.found = None
         s.conts = None
         ent.snap = s
@@ -753,10 +780,7 @@ class HeapAudit(object):
                 own.extend(('%s[%d]' % (nm, i), x) for i, x in enumerate(lst[:1 if comp and nm != 'decoded_values_all_subsets' else len(lst)]))
         tmpl = getattr(td, 'template', None)
         own.append(('template.members', getattr(tmpl, 'members', None)))
-        cached = {}
-        for ent in list(self.tg.values()) + list(self.ct.values()):
-            for i in ent.conts or ():
-                cached[i] = ent.owner
+        cached = self.cont
         for nm, x in own:
             o = cached.get(id(x)) if isinstance(x, (list, dict)) else None
             if o is not None and not (o[0] == 'ct' and nm == 'template.members'):
